@@ -3,6 +3,7 @@
 Decides the structural necessary conditions (DESIGN §2 C01.a–f); not the
 cryptography and not the set algebra.
 """
+import os
 import re
 from engine.rules import (MustPass, guard_edges, eq_matcher, pred_matcher, outcome, aggregates_of,
                           calls_to, call_checked, fmt_path, bool_atom, is_derived, root_fn, switch_bool_edges)
@@ -23,6 +24,10 @@ META = {
                     "mathematical subset/intersection (C03)", "bit-level tamper sensitivity"],
     "trusted_base": ["aws-lc-rs verify_sig", "bcder capture/decode"],
 }
+
+# debugging aids for testing the two generations of rules separately (never set in a normal run)
+_EV_ONLY = bool(os.environ.get("VERIF_C01_EV_ONLY"))      # ignore the as-written pattern rules where an entry-view rule exists
+_OLD_ONLY = bool(os.environ.get("VERIF_C01_OLD_ONLY"))    # ignore the entry-view rules
 
 CERT = "repository::cert::Cert::"
 ENTRY_ISSUED_VERIFY = ["verify_ca_at", "verify_ee_at", "verify_router_at"]
@@ -48,7 +53,10 @@ WRAPPERS = {"validate_ta": "validate_ta_at", "validate_ca": "validate_ca_at", "v
 # parameters.  The rules below match on *field paths with their owning ADT*, rooted at an entry parameter *position*.
 
 def _ev_select(callee):
-    return not callee.startswith("repository::resources::") and callee != "crypto::keys::PublicKey::key_identifier"
+    # kept as calls: the resource-set algebra (its entry points are the sinks of the rules), the key hash, and impls of
+    # std's value traits (Clone, comparison, Hash, Debug, Default) — what they mean is known from the trait
+    return not callee.startswith("repository::resources::") and callee != "crypto::keys::PublicKey::key_identifier" and \
+        re.search(r" as (std|core)::(clone|cmp|hash|fmt|default)::", callee) is None
 
 
 class _EVBodies:
@@ -215,6 +223,63 @@ def carrier(f, t):
     return t
 
 
+def carrier_kind(f, t, base_kind="result"):
+    """(peeled base, 'result' | 'option' of the outermost value) — `ok()` turns a Result into an Option, `ok_or` back."""
+    chain = []
+    t = strip(t)
+    while _std_optres(t) and t[2]:
+        nm = (t[3] or {}).get("name")
+        if nm in _PAYLOAD_KEEPING or (nm == "or_else" and len(t[2]) == 2 and _fail_only_closure(f, t[2][1])):
+            chain.append(nm)
+            t = strip(t[2][0])
+        else:
+            break
+    kind = base_kind
+    for nm in reversed(chain):
+        if nm == "ok":
+            kind = "option"
+        elif nm in ("ok_or", "ok_or_else"):
+            kind = "result"
+    return t, kind
+
+
+def ok_edges(f, body, sym, bb, pred):
+    """Edges of the switch at bb on which a Result satisfying `pred` (after peeling payload-keeping combinators and `?`)
+    is known to be Ok: `match x { Ok(..) .. }`, `x?`, `let Ok(..) = x else`, `if x.is_ok()`, `if x.is_err() { return }`."""
+    t = body.term(bb)
+    if t["t"] != "switch":
+        return None
+    d = strip_deep(sym.operand(t["discr"]))
+    neg = False
+    while d[0] == "un" and d[1] == "Not":
+        neg, d = not neg, strip_deep(d[2])
+    if d[0] == "discr":
+        x = strip(d[1])
+        if x[0] == "call" and (x[3] or {}).get("name") == "branch" and ((x[3] or {}).get("trait") or "").endswith("ops::Try") and len(x[2]) == 1:
+            base, kind = carrier_kind(f, x[2][0])
+            idx = 0
+        else:
+            base, kind = carrier_kind(f, x)
+            idx = 0 if kind == "result" else 1
+        if not pred(base):
+            return None
+        listed = [v for v, _ in t["targets"]]
+        out = [(bb, tb) for v, tb in t["targets"] if v == idx]
+        if idx not in listed and set(listed) == {1 - idx}:
+            out.append((bb, t["otherwise"]))
+        return out or None
+    if t.get("dty") == "bool" and d[0] == "call" and _std_optres(d) and (d[3] or {}).get("name") in ("is_ok", "is_some", "is_err", "is_none") and d[2]:
+        base, kind = carrier_kind(f, d[2][0])
+        if not pred(base):
+            return None
+        e = switch_bool_edges(body, bb)
+        if e is None:
+            return None
+        good = (d[3]["name"] in ("is_ok", "is_some")) != neg
+        return [(bb, e[1] if good else e[0])]
+    return None
+
+
 def payload_of(f, t):
     """If `t` is the success payload of an Option / Result X (as bound by a pattern, by `?`, or by unwrap/expect — all of
     which yield nothing else on the other variant): X with payload-keeping combinators peeled.  Else None."""
@@ -343,6 +408,154 @@ def order_edges(body, sym, bb, lo, hi):
     return None
 
 
+# ---------------------------------------------------------------------------------------------------------------
+# Path specialisation: a loop-free function read one acyclic path at a time.
+#
+# The provenance terms are flow-insensitive: a local assigned on two paths (`let covered = a || b;`, `let v = match …`)
+# is opaque to them.  On ONE path every local is assigned at most once, so the path — copied out as a straight-line body
+# — has exact terms for every branch condition taken and for the value returned.  Paths whose conditions contradict
+# each other (a constant tested against the other edge, the same discriminant taken two ways) are infeasible and dropped.
+
+def spec_paths(body, max_paths=600):
+    """[(conds, ret, blocks)] or None if the body has a loop / too many paths.  conds = [(term, allowed, excluded, dty)]
+    with allowed = {v} for a listed edge, excluded = {listed…} for the otherwise edge; ret = term of _0 at the return."""
+    import copy
+    from engine.facts import Body
+    raw = []
+    stack = [(0, (), ())]
+    while stack:
+        bb, path, choices = stack.pop()
+        if bb in path:
+            return None
+        path = path + (bb,)
+        t = body.term(bb)
+        k = t["t"]
+        if k == "return":
+            raw.append((path, choices))
+            if len(raw) > max_paths:
+                return None
+        elif k == "switch":
+            listed = [v for v, _ in t["targets"]]
+            for v, tb in t["targets"]:
+                stack.append((tb, path, choices + ((len(path) - 1, frozenset([v]), None),)))
+            stack.append((t["otherwise"], path, choices + ((len(path) - 1, None, frozenset(listed)),)))
+        elif k in ("goto", "drop", "assert", "call", "falseedge", "falseunwind"):
+            tgt = t.get("target", t.get("real_target"))
+            if tgt is not None:
+                stack.append((tgt, path, choices))
+    out = []
+    for path, choices in raw:
+        blocks = []
+        for i, bb in enumerate(path):
+            blk = body.blocks[bb]
+            t = blk["term"]
+            nt = {"t": "goto", "target": i + 1, "sp": t.get("sp")}
+            if t["t"] == "return":
+                nt = dict(t)
+            elif t["t"] == "call":
+                nt = {k_: v_ for k_, v_ in t.items() if k_ not in ("unwind", "cleanup_target")}
+                nt["target"] = i + 1
+            blocks.append({"stmts": blk["stmts"], "term": nt})
+        rec = {k_: v_ for k_, v_ in body.rec.items() if k_ != "blocks"}
+        rec["locals"] = [dict(l) for l in body.rec["locals"]]
+        rec["blocks"] = copy.deepcopy(blocks)
+        pb = Body(rec, body.facts)
+        sy = Sym(pb)
+        conds = []
+        feasible = True
+        seen = {}
+        for i, allowed, excluded in choices:
+            t = body.term(path[i])
+            d = strip_deep(sy.operand(t["discr"]))
+            if d[0] == "const" and isinstance(d[1], (int, bool)):
+                v = int(d[1])
+                if (allowed is not None and v not in allowed) or (excluded is not None and v in excluded):
+                    feasible = False
+                continue
+            key = render(d)
+            a0, e0 = seen.get(key, (None, frozenset()))
+            if allowed is not None:
+                a0 = allowed if a0 is None else (a0 & allowed)
+            else:
+                e0 = e0 | excluded
+            if a0 is not None and not (a0 - e0):
+                feasible = False
+            seen[key] = (a0, e0)
+            conds.append((d, allowed, excluded, t.get("dty")))
+        if feasible:
+            out.append((conds, strip_deep(sy.local(0)), path))
+    return out
+
+
+def decide_order_paths(body, names, spec, assume):
+    """engine.orderlogic.decide on the specialised paths (handles `!(a || b)`, early returns through bool temporaries)."""
+    import itertools
+    from engine import orderlogic as OL
+    sp = spec_paths(body)
+    if sp is None:
+        return False, "not loop-free"
+    ps = []
+    for conds, ret, _ in sp:
+        cs = []
+        for d, allowed, excluded, dty in conds:
+            if dty != "bool":
+                return False, "branches on a non-boolean"
+            truth = (allowed is None) if True else None
+            if allowed is not None:
+                truth = 0 not in allowed
+            cs.append((OL.atom(d), truth))
+        ps.append((cs, ret))
+    qs = OL.leaves(ps)
+    nm = {q: names[K.alpha(q, body)] for q in qs if K.alpha(q, body) in names}
+    if [q for q in qs if q not in nm] or not nm:
+        return False, "compares quantities outside the specification: %s" % [q for q in qs if q not in nm]
+    snames = sorted(set(nm.values()))
+    k = max(len(snames), 2)
+    n = 0
+    for vals in itertools.product(range(k), repeat=len(snames)):
+        senv = dict(zip(snames, vals))
+        for q_ in getattr(spec, "quantities", ()):
+            senv.setdefault(q_, 0)
+        if assume and not assume(senv):
+            continue
+        n += 1
+        env = {q: senv[nm[q]] for q in nm}
+        got = OL.evaluate(ps, env)
+        if got is None or got != spec(senv):
+            return False, {"ordering": senv, "function": got, "specification": spec(senv)}
+    return n > 0, {"orderings": n, "paths": len(ps)}
+
+
+def check_block_predicates(ctx, f):
+    """K.check_block_predicates; a predicate its flow-insensitive reading cannot follow is decided path by path."""
+    tee = Tee(ctx)
+    K.check_block_predicates(tee, f)
+    CH = "repository::resources::chain::Block::"
+    M = {"Block::min(self)": "a", "Block::max(self)": "b", "Block::min(%2)": "c", "Block::max(%2)": "d", "%2": "x"}
+
+    def sp(fn, q):
+        fn.quantities = q
+        return fn
+    specs = {
+        "is_encompassed": sp(lambda e: e["c"] <= e["a"] and e["b"] <= e["d"], ("a", "b", "c", "d")),
+        "intersects": sp(lambda e: e["a"] <= e["d"] and e["c"] <= e["b"], ("a", "b", "c", "d")),
+        "contains": sp(lambda e: e["a"] <= e["x"] <= e["b"], ("a", "b", "x")),
+        "is_equivalent": sp(lambda e: e["a"] == e["c"] and e["b"] == e["d"], ("a", "b", "c", "d")),
+    }
+
+    def rescue(rule, key):
+        m = re.match(r"^Block::(\w+):order-table$", key)
+        if not m or m.group(1) not in specs:
+            return None
+        meth = m.group(1)
+        b = f.body(CH + meth)
+        if b is None or any(re.search(r" as repository::resources::chain::Block>::%s$" % meth, n2) for n2 in f.bodies):
+            return None
+        ok, det = decide_order_paths(b, M, specs[meth], lambda e: e.get("a", 0) <= e.get("b", 0) and e.get("c", 0) <= e.get("d", 0))
+        return "decided path by path: %s" % (det,) if ok else None
+    tee.flush(rescue)
+
+
 class Tee:
     """Collects the obligations of a shared rule instance so that a failing one can be re-decided on the entry view
     before it is reported (`rescue(key) -> reason or None`).  Nothing that holds is touched, nothing is dropped."""
@@ -355,7 +568,7 @@ class Tee:
         return getattr(self._ctx, n)
 
     def ob(self, rule, key, ok, what, where=None, detail=None, nontrivial=True):
-        self.obs.append([rule, key, bool(ok), what, where, detail, nontrivial])
+        self.obs.append([rule, key, bool(ok) and not _EV_ONLY, what, where, detail, nontrivial])
         return bool(ok)
 
     def missing(self, rule, key, what):
@@ -368,7 +581,7 @@ class Tee:
     def flush(self, rescue):
         for rule, key, ok, what, where, detail, nontrivial in self.obs:
             if not ok:
-                why = rescue(rule, key)
+                why = None if _OLD_ONLY else rescue(rule, key)
                 if why:
                     ok = True
                     what += "  [as written the pattern is not matched; established on the entry views: %s]" % why
@@ -378,6 +591,31 @@ class Tee:
 
 
 
+def _roles(ev):
+    """Entry parameters by position / type: (self, issuer-or-None, now-or-None)."""
+    names = [ev.local_name(i) or "_%d" % i for i in range(1, ev.arg_count + 1)]
+    tys = [ev.local_ty(i) for i in range(1, ev.arg_count + 1)]
+    me = names[0] if names else None
+    issuer = None
+    now = None
+    for n, t in zip(names[1:], tys[1:]):
+        if issuer is None and t.replace("&", "").strip().endswith("cert::ResourceCert"):
+            issuer = n
+        if now is None and t.endswith("x509::Time"):
+            now = n
+    return me, issuer, now
+
+
+def _is_param(t, name):
+    p = fpath(t)
+    return p is not None and p[0] == name and all(s_[0].isdigit() for s_ in p[1])
+
+
+def _mp(evf, name, sink=None, guard=None):
+    return MustPass(evf, sink or (lambda c: False),
+                    guard_fn=(lambda b, s, bb: guard(b, s, bb)) if guard else None, name=name)
+
+
 def run(ctx):
     f = ctx.facts()
     ctx.rule("R-CHK", "every success path passes a checked call to the sink (interprocedural)")
@@ -385,7 +623,7 @@ def run(ctx):
     ctx.rule("R-FLOW", "operand provenance (backward slice) is the required source")
     ctx.rule("R-WHO", "construction sites of a type are exactly the confirmed ones")
     ctx.rule("R-REG", "the per-block containment / overlap tests behind verify_issued equal the interval definition on every ordering")
-    K.check_block_predicates(ctx, f)
+    check_block_predicates(ctx, f)
 
     all_entries = ENTRY_ISSUED_VERIFY + ENTRY_TA_VERIFY + ENTRY_ISSUED_VALIDATE + ENTRY_TA_VALIDATE
     issued = ENTRY_ISSUED_VERIFY + ENTRY_ISSUED_VALIDATE
@@ -393,31 +631,154 @@ def run(ctx):
         if f.body(CERT + e) is None:
             ctx.missing("R-CHK", "entry:" + e, "public entry point %s%s" % (CERT, e))
     entries = [e for e in all_entries if f.body(CERT + e)]
+    evf = EntryFacts(f, [CERT + e for e in entries])
+
+    VIA = {"validate_ca_at": "verify_ca_at", "validate_ee_at": "verify_ee_at", "validate_detached_ee_at": "verify_ee_at",
+           "validate_router_at": "verify_router_at", "validate_ta_at": "verify_ta_at"}
+    _memo = {}
+
+    def on_ev(e, make, tag=None):
+        """Decide a must-pass rule on the entry view of `e`; make(ev, self, issuer, now) -> MustPass.  With a tag, a
+        validate_* entry is judged by composition: every success path passes a checked call to its verify_* twin, for
+        which the rule holds on the twin's entry view (the inspection half cannot establish a verification fact)."""
+        if _OLD_ONLY:
+            return False
+        if tag is not None and (tag, e) in _memo:
+            return _memo[(tag, e)]
+        r = False
+        try:
+            if tag is not None and e in VIA:
+                if f.body(CERT + VIA[e]) is not None and on_ev(VIA[e], make, tag):
+                    r = bool(MustPass(f, lambda c: c.res == CERT + VIA[e], name=VIA[e]).holds(CERT + e))
+            else:
+                ev = evf.ev(CERT + e)
+                if ev is not None:
+                    mp = make(ev, *_roles(ev))
+                    if isinstance(mp, tuple):
+                        r = all(m.holds(CERT + e) for m in mp)
+                    elif mp is not None:
+                        r = bool(mp.holds(CERT + e))
+        except Exception:
+            r = False
+        if tag is not None:
+            _memo[(tag, e)] = r
+        return r
 
     # ---- C01.a skeleton ----------------------------------------------------
     mp_validity = MustPass(f, K.sink_validity_verify_at, name="Validity::verify_at")
     mp_sig = MustPass(f, K.sink_verify_sig, name="aws_lc_rs verify_sig")
-    mp_issued = MustPass(f, lambda c: K.res_matches(c, r"resources::(ipres::IpBlocks|asres::AsBlocks)::verify_issued$"),
-                         name="verify_issued")
+    is_vi = lambda c: K.res_matches(c, r"resources::(ipres::IpBlocks|asres::AsBlocks)::verify_issued$")
+    mp_issued = MustPass(f, is_vi, name="verify_issued")
+
+    def window_mps(ev, me, issuer, now):
+        """On the entry view: not_before <= now and now <= not_after of the certificate's own validity."""
+        if now is None:
+            return None
+        nb = lambda t: is_field(t, me, "not_before", "x509::Validity")
+        na = lambda t: is_field(t, me, "not_after", "x509::Validity")
+        nw = lambda t: _is_param(t, now)
+        return (_mp(evf, "not_before <= now", guard=lambda b, s, bb: order_edges(b, s, bb, nb, nw)),
+                _mp(evf, "now <= not_after", guard=lambda b, s, bb: order_edges(b, s, bb, nw, na)))
+
+    def window_ok(e):
+        return on_ev(e, window_mps, "window")
+
+    def sig_args_ok(ev, me, issuer, c, ta):
+        a = [strip_deep(x) for x in (K.sym_of(ev).operand(x) for x in c.args)]
+        if len(a) < 4:
+            return False
+        signer = me if ta else issuer
+        if signer is None:
+            return False
+        return derives_from(a[1], signer, [("subject_public_key_info", "cert::TbsCert"), ("bits", "keys::PublicKey")]) and \
+            derives_from(a[2], me, [("signed_data", "cert::Cert"), ("data", "x509::SignedData")]) and \
+            derives_from(a[3], me, [("signed_data", "cert::Cert"), ("signature", "x509::SignedData"), ("value", "Signature")])
+
+    def sig_ok(e):
+        if _OLD_ONLY:
+            return False
+        if ("sig", e) not in _memo:
+            if e in VIA:
+                r = f.body(CERT + VIA[e]) is not None and sig_ok(VIA[e]) and \
+                    bool(MustPass(f, lambda c: c.res == CERT + VIA[e], name=VIA[e]).holds(CERT + e))
+            else:
+                r = _sig_ok(e)
+            _memo[("sig", e)] = r
+        return _memo[("sig", e)]
+
+    def _sig_ok(e):
+        """Every success path of the entry view passes a checked verify_sig(<signer's key bits>, <own signed bytes>, <own
+        signature value>), no verify_sig call there has other operands, and the key format agrees with the signature
+        algorithm on every success path."""
+        ev = evf.ev(CERT + e)
+        if ev is None:
+            return False
+        me, issuer, now = _roles(ev)
+        ta = e in ENTRY_TA_VERIFY + ENTRY_TA_VALIDATE
+        try:
+            sinks = [c for c in ev.calls() if c.is_static and not ev.is_cleanup(c.bb) and K.sink_verify_sig(c)]
+            if not sinks or not all(sig_args_ok(ev, me, issuer, c, ta) for c in sinks):
+                return False
+            good = lambda c: c.body is ev and K.sink_verify_sig(c) and sig_args_ok(ev, me, issuer, c, ta)
+            if not _mp(evf, "verify_sig", sink=good).holds(CERT + e):
+                return False
+            signer = me if ta else issuer
+            fmt = eq_sides_matcher(
+                lambda t: strip(t)[0] == "call" and (strip(t)[3] or {}).get("name") == "public_key_format" and
+                derives_from(t, me, [("signed_data", "cert::Cert"), ("signature", "x509::SignedData"), ("algorithm", "Signature")]),
+                lambda t: is_field(t, signer, "algorithm", "keys::PublicKey") and is_field(t, signer, "subject_public_key_info", None) is False and
+                derives_from(t, signer, [("subject_public_key_info", "cert::TbsCert"), ("algorithm", "keys::PublicKey")]))
+            return bool(_mp(evf, "format", guard=lambda b, s, bb: guard_edges(b, s, bb, fmt)).holds(CERT + e))
+        except Exception:
+            return False
+
     for e in entries:
         fn = CERT + e
         ctx.saw_fn(fn)
-        ok = mp_validity.holds(fn)
+        ok = mp_validity.holds(fn) and not _EV_ONLY
+        how = None
+        if not ok and window_ok(e):
+            ok, how = True, "  [entry view: success requires not_before <= now <= not_after of self.validity]"
         ctx.ob("R-CHK", "%s→Validity::verify_at" % e, ok,
-               "every success path of Cert::%s checks the validity window" % e,
+               "every success path of Cert::%s checks the validity window%s" % (e, how or ""),
                where=f.body(fn).loc, detail=None if ok else K.why(f, mp_validity, fn))
-        ok = mp_sig.holds(fn)
+        ok = (mp_sig.holds(fn) and not _EV_ONLY) or sig_ok(e)
         ctx.ob("R-CHK", "%s→verify_sig" % e, ok,
                "every success path of Cert::%s verifies a signature" % e,
                where=f.body(fn).loc, detail=None if ok else K.why(f, mp_sig, fn))
+    fams = {"v4_resources": "ipres::IpBlocks::verify_issued", "v6_resources": "ipres::IpBlocks::verify_issued",
+            "as_resources": "asres::AsBlocks::verify_issued"}
+
+    def vi_call_ok(f_, t, fam, me, issuer):
+        """t = <issuer's validated fam>.verify_issued(<self's claimed fam>, <self's overclaim policy>)"""
+        t = strip(t)
+        if t[0] != "call" or not (t[1] or "").endswith(fams[fam]) or len(t[2]) != 3:
+            return False
+        a = [strip_deep(x) for x in t[2]]
+        return issuer is not None and is_field(a[0], issuer, fam, "cert::ResourceCert", exact=True) and \
+            is_field(a[1], me, fam, "cert::TbsCert", exact=True) and is_field(a[2], me, "overclaim", "cert::TbsCert", exact=True)
+
     for e in issued:
         fn = CERT + e
         if not f.body(fn):
             continue
-        ok = mp_issued.holds(fn)
+        ok = (mp_issued.holds(fn) and not _EV_ONLY) or on_ev(e, lambda ev, me, issuer, now: _mp(evf, "verify_issued", sink=is_vi), "vi")
         ctx.ob("R-CHK", "%s→verify_issued" % e, ok,
                "every success path of Cert::%s runs the resource issuance check" % e,
                where=f.body(fn).loc, detail=None if ok else K.why(f, mp_issued, fn))
+        # … on the issuer's validated resources of each family the certificate kind carries
+        need = ["as_resources"] if "router" in e else ["v4_resources", "v6_resources", "as_resources"]
+        for fam in need:
+            def make(ev, me, issuer, now, fam=fam):
+                sy = K.sym_of(ev)
+                good = lambda t: vi_call_ok(f, t, fam, me, issuer)
+                return _mp(evf, "verify_issued[%s]" % fam,
+                           sink=lambda c: c.body is ev and is_vi(c) and good(sy.call(c.t, c.bb)),
+                           guard=lambda b, s_, bb: ok_edges(f, b, s_, bb, good) if b is ev else None)
+            ok = on_ev(e, make, "vi:" + fam)
+            ctx.ob("R-CHK", "%s→verify_issued[%s]" % (e, fam), ok,
+                   "every success path of Cert::%s passes issuer.%s.verify_issued(self.%s, self.overclaim), checked" % (e, fam, fam),
+                   where=f.body(fn).loc)
     # convenience wrappers (now = Time::now()) delegate to the *_at twin
     for w, tgt in WRAPPERS.items():
         fn = CERT + w
@@ -433,71 +794,232 @@ def run(ctx):
     aki_guard = eq_matcher(r"authority_key_identifier\(self\)", r"subject_key_identifier\(issuer(\.cert)?\)")
     mp_aki = MustPass(f, lambda c: False, guard_fn=lambda b, s, bb: guard_edges(b, s, bb, aki_guard),
                       name="AKI == issuer SKI")
+
+    def aki_make(ev, me, issuer, now):
+        if issuer is None:
+            return None
+        m = eq_sides_matcher(None, lambda t: is_field(t, issuer, "subject_key_identifier", "cert::TbsCert"), f=f,
+                             opt_a=lambda t: is_field(t, me, "authority_key_identifier", "cert::TbsCert", exact=True))
+        return _mp(evf, "AKI == issuer SKI", guard=lambda b, s, bb: guard_edges(b, s, bb, m))
+
     for e in issued:
         fn = CERT + e
         if not f.body(fn):
             continue
-        ok = mp_aki.holds(fn)
+        ok = on_ev(e, aki_make, "aki") or (mp_aki.holds(fn) and not _EV_ONLY)
         ctx.ob("R-GRD", "%s:aki==issuer.ski" % e, ok,
                "Cert::%s succeeds only if authority_key_identifier(self) == subject_key_identifier(issuer)" % e,
                where=f.body(fn).loc, detail=None if ok else K.why(f, mp_aki, fn))
     # TA: if AKI present it must equal own SKI
-    ta_guard = eq_matcher(r"self\.authority_key_identifier|authority_key_identifier\(self\)",
-                          r"subject_key_identifier\(self\)|self\.subject_key_identifier")
-    b = f.body(CERT + "inspect_ta")
-    if b is None:
-        ctx.missing("R-GRD", "inspect_ta", "Cert::inspect_ta")
-    else:
-        ok, detail = K.guard_false_edge_fails(b, ta_guard)
-        ctx.ob("R-GRD", "inspect_ta:aki==ski", ok,
-               "Cert::inspect_ta fails when an authority key identifier is present and differs from the SKI",
-               where=b.loc, detail=detail)
+    check_ta_aki(ctx, f, evf)
 
     # ---- C01.c SKI is the key hash ------------------------------------------
     ski_guard = eq_matcher(r"^TbsCert::subject_key_identifier\(self\)$",
                            r"key_identifier\(TbsCert::subject_public_key_info\(self\)\)")
     mp_ski = MustPass(f, lambda c: False, guard_fn=lambda b, s, bb: guard_edges(b, s, bb, ski_guard),
                       name="SKI == key_identifier(SPKI)")
+
+    def ski_make(ev, me, issuer, now):
+        def keyhash(t):
+            t = strip(t)
+            return t[0] == "call" and t[1] == "crypto::keys::PublicKey::key_identifier" and len(t[2]) == 1 and \
+                is_field(strip_deep(t[2][0]), me, "subject_public_key_info", "cert::TbsCert", exact=True)
+        m = eq_sides_matcher(lambda t: is_field(t, me, "subject_key_identifier", "cert::TbsCert"), keyhash)
+        return _mp(evf, "SKI == key_identifier(SPKI)", guard=lambda b, s, bb: guard_edges(b, s, bb, m))
+
     for e in ENTRY_ISSUED_VALIDATE + ENTRY_TA_VALIDATE:
         fn = CERT + e
         if not f.body(fn):
             continue
-        ok = mp_ski.holds(fn)
+        ok = on_ev(e, ski_make) or (mp_ski.holds(fn) and not _EV_ONLY)
         ctx.ob("R-GRD", "%s:ski==hash(key)" % e, ok,
                "Cert::%s succeeds only if subject_key_identifier(self) == key_identifier(subject_public_key_info(self))" % e,
                where=f.body(fn).loc, detail=None if ok else K.why(f, mp_ski, fn))
-    K.check_key_identifier_is_sha1_of_bits(ctx, f)
+    check_key_identifier(ctx, f)
 
     # ---- C01.d which key, which bytes ---------------------------------------
-    K.check_signed_data_flow(ctx, f)
+    verify_entries = [e for e in ENTRY_ISSUED_VERIFY + ENTRY_TA_VERIFY if f.body(CERT + e)]
+    _sig = {}
+
+    def sig_cached(e):
+        if e not in _sig:
+            _sig[e] = sig_ok(e)
+        return _sig[e]
+
+    tee = Tee(ctx)
+    K.check_signed_data_flow(tee, f)
     for e in ENTRY_ISSUED_VERIFY:
         b = f.body(CERT + e)
         if b is None:
             continue
-        K.check_sig_key_provenance(ctx, f, b, e, want="issuer", forbid="self")
+        K.check_sig_key_provenance(tee, f, b, e, want="issuer", forbid="self")
     for e in ENTRY_TA_VERIFY:
         b = f.body(CERT + e)
         if b is None:
             continue
-        K.check_sig_key_provenance(ctx, f, b, e, want="self", forbid=None)
-    K.check_public_key_verify_format_guard(ctx, f)
+        K.check_sig_key_provenance(tee, f, b, e, want="self", forbid=None)
+    K.check_public_key_verify_format_guard(tee, f)
+
+    def rescue_sig(rule, key):
+        # per-entry operand obligations: that entry's view; obligations about the shared plumbing (SignedData::
+        # verify_signature, PublicKey::verify, PublicKeyFormat::verify): every certificate entry point's view
+        m = re.match(r"^(?:floor:)?(\w+):(?:key|message|signature|verify_sig chains)", key)
+        if m and m.group(1) in verify_entries:
+            return "verify_sig operands of Cert::%s" % m.group(1) if sig_cached(m.group(1)) else None
+        if key.startswith(("SignedData::verify_signature-args", "PublicKey::verify:", "PublicKeyFormat::verify", "floor:verify_sig call sites")):
+            if verify_entries and all(sig_cached(e) for e in verify_entries):
+                return "verify_sig operands and key-format agreement in all %d verify entry points" % len(verify_entries)
+        return None
+    tee.flush(rescue_sig)
 
     # ---- C01.e resources never grow — dataflow part --------------------------
-    check_resource_cert_sites(ctx, f)
+    check_resource_cert_sites(ctx, f, evf, vi_call_ok)
     K.check_verify_issued(ctx, f)
     check_from_resources(ctx, f)
     check_overclaim_writers(ctx, f)
 
     # ---- C01.f validity window ------------------------------------------------
-    K.check_validity_window(ctx, f)
+    tee = Tee(ctx)
+    K.check_validity_window(tee, f)
+    _win = {}
+
+    def rescue_window(rule, key):
+        # Time::verify_not_before / verify_not_after / Validity::verify_at are plumbing; what the property needs is
+        # that every entry point succeeds only inside the window and can succeed inside it
+        for e in entries:
+            if e not in _win:
+                _win[e] = window_ok(e) and window_open(evf, e)
+        if entries and all(_win.values()):
+            return "not_before <= now <= not_after is required, and accepted, in all %d entry points" % len(entries)
+        return None
+    tee.flush(rescue_window)
 
 
-def check_resource_cert_sites(ctx, f):
+def window_open(evf, e):
+    """The window test does not reject everything: both literal-true edges lie on a success path of the entry view."""
+    ev = evf.ev(CERT + e)
+    if ev is None:
+        return False
+    me, issuer, now = _roles(ev)
+    if now is None:
+        return False
+    oc = outcome(ev)
+    reach = oc.success_reach()
+    nb = lambda t: is_field(t, me, "not_before", "x509::Validity")
+    na = lambda t: is_field(t, me, "not_after", "x509::Validity")
+    nw = lambda t: _is_param(t, now)
+    seen = [False, False]
+    for bi, blk in enumerate(ev.blocks):
+        if blk["term"]["t"] != "switch" or blk.get("cleanup"):
+            continue
+        for k, (lo, hi) in enumerate(((nb, nw), (nw, na))):
+            ed = order_edges(ev, oc.sym, bi, lo, hi)
+            if ed and any(tb in reach for _, tb in ed):
+                seen[k] = True
+    return all(seen)
+
+
+def check_ta_aki(ctx, f, evf):
+    """A trust anchor whose authority key identifier is present and differs from its subject key identifier is
+    rejected: on the entry view of validate_ta_at no success path leaves a test of the two on its 'differs' edge."""
+    ta_guard = eq_matcher(r"self\.authority_key_identifier|authority_key_identifier\(self\)",
+                          r"subject_key_identifier\(self\)|self\.subject_key_identifier")
+    b = f.body(CERT + "inspect_ta")
+    ok, detail = (False, "Cert::inspect_ta is gone")
+    if b is not None:
+        ok, detail = K.guard_false_edge_fails(b, ta_guard)
+    if _EV_ONLY:
+        ok = False
+    if not ok:
+        e = "validate_ta_at"
+        ev = evf.ev(CERT + e) if f.body(CERT + e) else None
+        if ev is not None:
+            me = _roles(ev)[0]
+            m = eq_sides_matcher(None, lambda t: is_field(t, me, "subject_key_identifier", "cert::TbsCert"), f=f,
+                                 opt_a=lambda t: is_field(t, me, "authority_key_identifier", "cert::TbsCert", exact=True))
+            ok2, detail2 = K.guard_false_edge_fails(ev, m)
+            if ok2:
+                ok, detail = True, None
+            else:
+                detail = {"as_written": detail, "entry_view": detail2}
+    where = b.loc if b is not None else None
+    ctx.ob("R-GRD", "inspect_ta:aki==ski", ok,
+           "a trust anchor is rejected when an authority key identifier is present and differs from the SKI",
+           where=where, detail=detail)
+
+
+def check_key_identifier(ctx, f):
+    """PublicKey::key_identifier = SHA-1 over the key's bit string: the digest call's operands by what they are (the
+    algorithm constant, a value derived from self.bits only), and the result built from that digest."""
+    tee = Tee(ctx)
+    K.check_key_identifier_is_sha1_of_bits(tee, f)
+
+    def rescue(rule, key):
+        fn = "crypto::keys::PublicKey::key_identifier"
+        b = f.body(fn)
+        if b is None:
+            return None
+        try:
+            nb = INL.inlined(f, b, 4, _ev_select, 120)
+        except Exception:
+            nb = b
+        s = K.sym_of(nb)
+        me = nb.local_name(1) or "_1"
+        digs = [c for c in nb.calls() if c.is_static and not nb.is_cleanup(c.bb) and c.name == "digest" and (c.krate or "").startswith("aws_lc")]
+        if len(digs) != 1:
+            return None
+        c = digs[0]
+        a = [strip_deep(s.operand(x)) for x in c.args]
+        alg_ok = any(x[0] == "cdef" and x[1].endswith("SHA1_FOR_LEGACY_USE_ONLY") for x in walk(a[0])) or "SHA1_FOR_LEGACY_USE_ONLY" in render(a[0])
+        src_ok = derives_from(a[1], me, [("bits", "keys::PublicKey")])
+        ret = strip_deep(s.local(0))
+        ret_ok = any(x[0] == "call" and (x[3] or {}).get("bb") == c.bb and (x[3] or {}).get("name") == "digest" for x in walk(ret))
+        if key.startswith("key_identifier=sha1") and alg_ok and src_ok:
+            return "digest(SHA1, value derived from self.bits only)"
+        if key.startswith("key_identifier-returns") and ret_ok:
+            return "returned value is built from the digest"
+        return None
+    tee.flush(rescue)
+
+
+def _covered(f, fn, roots_, seen=None):
+    """Every execution of `fn` happens inside one of `roots_`: it is one of them, or it is private, never used as a
+    value, and all its callers are covered."""
+    seen = seen or set()
+    if fn in roots_:
+        return True
+    if fn in seen:
+        return True
+    seen = seen | {fn}
+    r = f.fns.get(fn)
+    if r is None or r.get("exported") or r.get("impl_trait"):
+        return False
+    callers = set()
+    for b in f.bodies.values():
+        for c in b.calls():
+            if c.is_static and c.res == fn:
+                callers.add(root_fn(f, b.name))
+        for blk in b.blocks:
+            t = blk["term"]
+            if t["t"] == "call":
+                for a in t["args"]:
+                    k = a.get("k") if isinstance(a, dict) else None
+                    if k and "fn" in k and (k.get("res") or k["fn"]) == fn:
+                        return False
+    return all(_covered(f, c, roots_, seen) for c in callers)
+
+
+def check_resource_cert_sites(ctx, f, evf, vi_call_ok):
     RC = "repository::cert::ResourceCert"
     sites = [x for x in aggregates_of(f, RC) if not is_derived(x[0])]
-    fns = sorted({b.name for b, _, _, _ in sites})
-    ctx.ob("R-WHO", "ResourceCert-literal-sites", set(fns) == {CERT + "verify_ta_at", CERT + "verify_resources"},
-           "ResourceCert {..} is built only in verify_ta_at and verify_resources", detail={"sites": fns})
+    fns = sorted({root_fn(f, b.name) for b, _, _, _ in sites})
+    judged = {"issued": ["verify_ca_at", "verify_ee_at"], "ta": ["verify_ta_at"]}
+    roots_ = {CERT + e for v in judged.values() for e in v if f.body(CERT + e)}
+    stray = [x for x in fns if not _covered(f, x, roots_)]
+    ctx.ob("R-WHO", "ResourceCert-literal-sites", bool(fns) and not stray,
+           "ResourceCert {..} is built only inside verify_ca_at / verify_ee_at / verify_ta_at (directly or in private code "
+           "reachable only from them), where every such value is judged below",
+           detail={"sites": fns, "not_confined_to_the_judged_entry_points": stray})
     adt = f.adts.get(RC)
     if adt:
         priv = all(fl["vis"] != "pub" for v in adt["variants"] for fl in v["fields"])
@@ -505,48 +1027,60 @@ def check_resource_cert_sites(ctx, f):
                "all fields of ResourceCert are private (no construction outside the crate)")
     else:
         ctx.missing("R-WHO", "ResourceCert-adt", RC)
-    pairs = {"v4_resources": ("v4_resources", r"v4_resources"), "v6_resources": ("v6_resources", r"v6_resources"),
-             "as_resources": ("as_resources", r"as_resources")}
-    for b, bi, si, s in sites:
-        sym = Sym(b)
-        t = sym.rvalue(s["rv"])
-        fields = dict(t[3])
-        ctx.saw_fn(b.name)
-        if b.name.endswith("verify_resources"):
-            for fld, (ifld, claim_rx) in pairs.items():
-                v = strip_deep(fields.get(fld, ("unknown", "missing")))
-                r = render(v)
-                # Try::branch(map_err(verify_issued(issuer.<fld>, <claim>(self), overclaim), _))↓Continue.0
-                calls = [x for x in walk(v) if x[0] == "call" and x[3].get("name") == "verify_issued"]
-                ok = False
-                why = "no verify_issued call in provenance: " + r
-                if len(calls) == 1:
-                    c = calls[0]
-                    a = [render(strip_deep(x)) for x in c[2]]
-                    recv_ok = re.match(r"^issuer\.%s$" % ifld, a[0]) is not None
-                    claim_ok = re.search(r"\b%s\b" % claim_rx, a[1]) is not None and re.search(r"\(self\)|^self\.", a[1]) is not None
-                    over_ok = re.search(r"overclaim", a[2]) is not None and re.search(r"self", a[2]) is not None
-                    # the payload must be the Continue value of the checked result (not e.g. unwrap_or(claim))
-                    shape_ok = re.match(r"^Try::branch\((Result::map_err\()?(IpBlocks|AsBlocks)::verify_issued\(.*\)\)↓Continue\.0$", r) is not None
-                    ok = recv_ok and claim_ok and over_ok and shape_ok
-                    why = {"term": r, "receiver_is_issuer_same_family": recv_ok, "claim_is_self_same_family": claim_ok,
-                           "policy_is_self_overclaim": over_ok, "value_is_checked_success_payload": shape_ok}
-                ctx.ob("R-FLOW", "verify_resources.%s" % fld, ok,
-                       "ResourceCert.%s = Ok-payload of issuer.%s.verify_issued(self.%s(), self.overclaim)" % (fld, ifld, fld),
-                       where=b.where(bi, si), detail=why)
-            cert = render(strip_deep(fields.get("cert", ("unknown",))))
-            ctx.ob("R-FLOW", "verify_resources.cert", cert == "self",
-                   "ResourceCert.cert is the certificate being verified", where=b.where(bi, si), detail=cert)
-        elif b.name.endswith("verify_ta_at"):
-            for fld in pairs:
-                v = strip_deep(fields.get(fld, ("unknown", "missing")))
-                r = render(v)
-                calls = [x for x in walk(v) if x[0] == "call" and x[3].get("name") == "from_resources"]
-                ok = len(calls) == 1 and re.search(r"self\.%s\b" % fld, render(calls[0][2][0])) is not None \
-                    and r.startswith("Try::branch(") and r.endswith("↓Continue.0")
-                ctx.ob("R-FLOW", "verify_ta_at.%s" % fld, ok,
-                       "TA ResourceCert.%s = checked from_resources(self.%s)" % (fld, fld),
-                       where=b.where(bi, si), detail=r)
+    fams = ("v4_resources", "v6_resources", "as_resources")
+
+    def every_def(sym, v, pred, depth=0):
+        """pred on the value, or — for a local assigned on several paths — on each of its definitions."""
+        v = strip_deep(v)
+        if v[0] == "var" and depth < 3:
+            ds = sym.defs_of_var(v[2])
+            return bool(ds) and all(every_def(sym, d, pred, depth + 1) for _, d in ds)
+        return pred(v)
+
+    for kind, es in judged.items():
+        for e in es:
+            if f.body(CERT + e) is None:
+                continue
+            ev = evf.ev(CERT + e)
+            if ev is None:
+                ctx.missing("R-FLOW", "%s:ResourceCert" % e, "entry view of " + e)
+                continue
+            ctx.saw_fn(CERT + e)
+            me, issuer, now = _roles(ev)
+            sym = K.sym_of(ev)
+            esites = []
+            for bi, blk in enumerate(ev.blocks):
+                if blk.get("cleanup"):
+                    continue
+                for si, st in enumerate(blk["stmts"]):
+                    if st["s"] == "assign" and st["rv"]["r"] == "agg" and st["rv"].get("ak") == "adt" and st["rv"]["adt"] == RC:
+                        esites.append((bi, si, st))
+            ctx.floor("R-FLOW", "%s: ResourceCert values built" % e, len(esites), 1)
+            for bi, si, st in esites:
+                fields = dict(sym.rvalue(st["rv"])[3])
+                for fam in fams:
+                    v = fields.get(fam, ("unknown", "missing"))
+                    if kind == "issued":
+                        def pred(x, fam=fam):
+                            p = payload_of(f, x)
+                            return p is not None and vi_call_ok(f, p, fam, me, issuer)
+                        what = "ResourceCert.%s = Ok-payload of issuer.%s.verify_issued(self.%s, self.overclaim)" % (fam, fam, fam)
+                    else:
+                        def pred(x, fam=fam):
+                            p = payload_of(f, x)
+                            if p is None:
+                                return False
+                            p = strip(p)
+                            owner = "ipres::IpBlocks::from_resources" if fam != "as_resources" else "asres::AsBlocks::from_resources"
+                            return p[0] == "call" and (p[1] or "").endswith(owner) and len(p[2]) == 1 and \
+                                is_field(strip_deep(p[2][0]), me, fam, "cert::TbsCert", exact=True)
+                        what = "TA ResourceCert.%s = Ok-payload of from_resources(self.%s)" % (fam, fam)
+                    ok = every_def(sym, v, pred)
+                    ctx.ob("R-FLOW", "%s:ResourceCert.%s" % (e, fam), ok, what, where=ev.where(bi, si),
+                           detail=None if ok else render(strip_deep(v))[:400])
+                cert = strip_deep(fields.get("cert", ("unknown",)))
+                ctx.ob("R-FLOW", "%s:ResourceCert.cert" % e, _is_param(cert, me) and fpath(cert)[1] == [],
+                       "ResourceCert.cert is the certificate being verified", where=ev.where(bi, si), detail=render(cert)[:200])
 
 
 def check_from_resources(ctx, f):
